@@ -55,6 +55,7 @@ import (
 	"math/rand"
 	"os"
 	"regexp"
+	"runtime"
 	"sort"
 	"strconv"
 	"strings"
@@ -649,6 +650,68 @@ func vdEach[T uint32 | uint64](st *vdState, su vdSuite[T], subName string, sub [
 	}
 }
 
+// vdEachAborted: an iteration that does not come back - the caller's delegate panics (and the caller recovers), or ends
+// its goroutine - leaves the set what it was and able to answer: every later operation returns (within 5 s) the answers
+// of the same set. (A wrapper that still holds its lock after the delegate is gone never answers again.)
+func vdEachAborted[T uint32 | uint64](st *vdState, su vdSuite[T], subName string, sub []T) {
+	if len(sub) == 0 {
+		return
+	}
+	want := vdModelOf(sub).sorted()
+	for _, impl := range su.impls {
+		if impl.operandOnly {
+			continue
+		}
+		for _, how := range []string{"panics (recovered by the caller)", "ends its goroutine (runtime.Goexit)"} {
+			st.guard(func() string {
+				return fmt.Sprintf("each %s/%s %s%s whose delegate %s on its first call", su.typ, subName, impl.name, vdFmt(sub), how)
+			}, func() string {
+				d := impl.mk(sub)
+				gone := make(chan struct{})
+				go func() {
+					defer close(gone)
+					defer func() { _ = recover() }()
+					d.Each(func(T) bool {
+						if how[0] == 'p' {
+							panic("delegate gives up")
+						}
+						runtime.Goexit()
+						return true
+					})
+				}()
+				select {
+				case <-gone:
+				case <-time.After(5 * time.Second):
+					return "the aborted Each itself did not come back within 5 s"
+				}
+				answer := make(chan string, 1)
+				go func() {
+					defer func() {
+						if r := recover(); r != nil {
+							answer <- fmt.Sprintf("panic: %v", r)
+						}
+					}()
+					r := vdObserve(d, want, su.universe)
+					if r == "" {
+						d.Add(sub[0])
+						r = vdObserve(d, want, su.universe)
+					}
+					answer <- r
+				}()
+				select {
+				case r := <-answer:
+					if r != "" {
+						return "after the aborted Each: " + r
+					}
+					return ""
+				case <-time.After(5 * time.Second):
+					return "after the aborted Each the set does not answer any more (Contains / Cardinality / Add did not return within 5 s)"
+				}
+			})
+		}
+	}
+}
+
 // vdClone: Clone() is an equal, independent copy. Every mutation is applied once to the clone (original must
 // stay S) and once to the original (clone must stay S).
 func vdClone[T uint32 | uint64](st *vdState, su vdSuite[T], subName string, sub []T, rng *rand.Rand) {
@@ -963,6 +1026,7 @@ func vdRunSuite[T uint32 | uint64](st *vdState, su vdSuite[T], k int, seed int64
 		}
 		if parts["each"] {
 			vdEach(st, su, sub.name, sub.vals, rng)
+			vdEachAborted(st, su, sub.name, sub.vals)
 		}
 		if parts["clone"] {
 			vdClone(st, su, sub.name, sub.vals, rng)
